@@ -114,12 +114,12 @@ def build(r, name):
             v = Variant(ident=idents[i], kind=kind, fields=gen.rand_fields(r, kind, nmax=2))
             x = r.random()
             if x < 0.25:
-                v.to_string = strgen.rand_spelling(r)
+                v.to_string = strgen.rand_spelling(r, True, True)
             elif x < 0.5:
                 v.serialize = gen.distinct_len_spellings(r, r.choice([1, 2, 3]), [strgen.rand_spelling(r) for _ in range(30)], [])
                 if not model.unambiguous_longest(v.serialize):
                     v.serialize = v.serialize[:1]
-            if any("{" in s or "}" in s for s in v.serialize + [v.to_string or ""]):
+            if any(strgen.has_placeholder_braces(s) for s in v.serialize + [v.to_string or ""]):
                 v.serialize, v.to_string = [], None
         v.disabled = r.random() < 0.1
         v.split_attrs = r.choice([0, 1, 2])
@@ -131,7 +131,7 @@ def check(run):
     deps, vmon = setup(run)
     thorough = run.tier == "thorough"
     r = gen.rng_for(run.seed, "c17")
-    specs = [build(r, "E%d" % i) for i in range(1200 if thorough else 220)]
+    specs = [build(r, "E%d" % i) for i in range(4000 if thorough else 600)]
     # systematic: the three kinds x multi-byte fixed names x prefix
     k = 0
     for nm in ["café", "日本酒", "añejo", "ß", "a", "", "abcdefghijklmnopqrstuvwxyz", "🦀🦀", "é"]:
